@@ -95,7 +95,7 @@ Definition trackedT (d : db) (perm temp : list Z) : Prop :=
     (forall u, In u (map c_uid ex) <-> In u (perm ++ temp)) /\
     (forall u, In u perm -> In u temp -> False) /\
     (forall t, tch t = false -> getloc (d_locs d) t = getloc (d_locs d0) t) /\
-    (forall t, tch t = true -> getloc (d_locs d0) t = [] /\ NoDup (getloc (d_locs d) t) /\
+    (forall t, tch t = true -> NoDup (getloc (d_locs d) t) /\
                                forall u, In u (getloc (d_locs d) t) -> In u (perm ++ temp)) /\
     length (d_locs d) = NLOC /\ d_grid d = d_grid d0 /\ d_gdim d = d_gdim d0 /\
     d_nuid d0 <= d_nuid d /\
@@ -110,7 +110,7 @@ Lemma tT_init : trackedT d0 [] [].
 Proof.
   exists []. rewrite app_nil_r. split; [reflexivity|]. split; [intro u; simpl; tauto|]. split; [intros u []|].
   split; [reflexivity|].
-  split. { intros t Ht. rewrite (Htch0 t Ht). split; [reflexivity|]. split; [constructor | intros u []]. }
+  split. { intros t Ht. rewrite (Htch0 t Ht). split; [constructor | intros u []]. }
   split; [apply inv_len|]. split; [reflexivity|]. split; [reflexivity|]. split; [lia | intros u []].
 Qed.
 
@@ -122,7 +122,7 @@ Proof.
   rewrite app_nil_r in Hc.
   assert (Hlocs : d_locs d = d_locs d0).
   { apply locs_ext; [exact Hlen | apply inv_len|]. intro t. destruct (tch t) eqn:E; [|apply Hl; exact E].
-    destruct (Ht t E) as [H0 [_ Hin]]. rewrite H0. destruct (getloc (d_locs d) t) as [|x l]; [reflexivity|].
+    destruct (Ht t E) as [_ Hin]. rewrite (Htch0 t E). destruct (getloc (d_locs d) t) as [|x l]; [reflexivity|].
     exfalso. apply (Hin x). left; reflexivity. }
   split; [repeat split; assumption|].
   destruct HI as [I1 [I2 [I3 [I4 [I5 I6]]]]]. unfold Inv. rewrite Hc, Hlocs.
@@ -143,7 +143,7 @@ Qed.
 Lemma tT_entries d perm temp t x : trackedT d perm temp -> In x (getloc (d_locs d) t) -> x < d_nuid d.
 Proof.
   intros [ex [_ [_ [_ [Hl [Ht [_ [_ [_ [Hn Hr]]]]]]]]]] Hin. destruct (tch t) eqn:E.
-  - destruct (Ht t E) as [_ [_ H]]. apply H in Hin. apply Hr in Hin. lia.
+  - destruct (Ht t E) as [_ H]. apply H in Hin. apply Hr in Hin. lia.
   - rewrite (Hl t E) in Hin. apply getloc_In in Hin as [l [H1 H2]]. apply (inv_loc_lt d0 HI l x H1) in H2. lia.
 Qed.
 
@@ -163,7 +163,7 @@ Proof.
   split; [exact Hc|]. split; [intro u; rewrite Hx; apply Heq|].
   split. { intros u H1 H2. apply Hp in H1. apply Hq in H2. exact (Hdis u H1 H2). }
   split; [exact Hl|].
-  split. { intros t E. destruct (Ht t E) as [A [B C]]. split; [exact A|]. split; [exact B|]. intros u Hu. apply Heq. apply C; exact Hu. }
+  split. { intros t E. destruct (Ht t E) as [B C]. split; [exact B|]. intros u Hu. apply Heq. apply C; exact Hu. }
   split; [exact Hlen|]. split; [exact Hg|]. split; [exact Hd|]. split; [exact Hn|].
   intros u H. apply Hr. apply Heq. exact H.
 Qed.
@@ -177,7 +177,7 @@ Proof.
   destruct (uid_valid d u && has_col d u) eqn:E; simpl.
   - apply getloc_map. reflexivity.
   - symmetry. apply erase_first_notin. intro Hin. destruct (tch t) eqn:Et.
-    + destruct (Ht t Et) as [_ [_ H]]. apply H in Hin. pose proof (Hr u Hin) as Hb. apply Hx in Hin.
+    + destruct (Ht t Et) as [_ H]. apply H in Hin. pose proof (Hr u Hin) as Hb. apply Hx in Hin.
       apply andb_false_iff in E as [E|E].
       * unfold uid_valid in E. apply andb_false_iff in E as [E|E]; [apply Z.leb_gt in E | apply Z.ltb_ge in E];
           pose proof (inv_nuid d0 HI); lia.
@@ -229,7 +229,7 @@ Proof.
   { intros t E. rewrite K2. rewrite <- (Hl t E). apply erase_first_notin.
     rewrite (Hl t E). intro Hin. apply getloc_In in Hin as [l [H1 H2]]. apply (inv_loc_lt d0 HI l u H1) in H2. lia. }
   split.
-  { intros t E. destruct (Ht t E) as [A [B C]]. split; [exact A|]. rewrite K2, (erase_first_nodup u _ B).
+  { intros t E. destruct (Ht t E) as [B C]. rewrite K2, (erase_first_nodup u _ B).
     split; [apply NoDup_filter; exact B|].
     intros x Hin. apply filter_In in Hin as [Hin Hm]. rewrite <- filter_app. apply filter_In. split; [apply C; exact Hin | exact Hm]. }
   split; [exact Hlen|]. split; [exact Hg|]. split; [exact Hd|]. split; [exact Hn|].
@@ -343,7 +343,7 @@ Proof.
       - apply in_app_iff in H2 as [H2|H2]; [exact (Hdis x H1 H2)|].
         apply seqz_In in H2. assert (In x (perm ++ temp)) as H3 by (apply in_or_app; left; exact H1). apply Hr in H3. lia. }
     split; [exact Hl|].
-    split. { intros t E. destruct (Ht t E) as [A [B C]]. split; [exact A|]. split; [exact B|]. intros x Hx. apply Hreg. left. apply C; exact Hx. }
+    split. { intros t E. destruct (Ht t E) as [B C]. split; [exact B|]. intros x Hx. apply Hreg. left. apply C; exact Hx. }
     split; [exact Hlen|]. split; [exact Hg|]. split; [exact Hd|]. split; [lia|].
     intros x Hx. apply Hreg in Hx as [Hx|Hx]; [apply Hr in Hx; lia | lia].
   - intros x Hx. unfold has_col. cbn [d_cols]. apply existsb_exists.
@@ -373,7 +373,7 @@ Proof.
   cbn [negb]. assert ((idx <? 0) = false) as -> by (apply Z.ltb_ge; lia). rewrite Hl1.
   rewrite Eok. cbn [negb].
   set (l := getloc (d_locs d) t) in *.
-  destruct (Ht t Et) as [A [B C]]. fold l in B, C.
+  destruct (Ht t Et) as [B C]. fold l in B, C.
   set (p' := upd (pad l (Datatypes.S (Z.to_nat idx))) (Z.to_nat idx) u).
   assert (Hp' : NoDup p' /\ (forall x, In x p' -> x = u \/ In x l) /\ idx + 1 <= zlen p').
   { unfold zlen in Hidx. destruct (Z.eq_dec idx (Z.of_nat (length l))) as [He|He].
@@ -397,7 +397,7 @@ Proof.
     split. { intros t' E'. rewrite getloc_setloc_other by (intro; subst; congruence). apply Hl; exact E'. }
     split.
     { intros t' E'. destruct (Z.eq_dec t' t) as [->|Hne].
-      - rewrite Hsame. split; [exact A|]. split; [exact P1|]. intros x Hin. apply P2 in Hin as [->|Hin]; [exact Hreg | apply C; exact Hin].
+      - rewrite Hsame. split; [exact P1|]. intros x Hin. apply P2 in Hin as [->|Hin]; [exact Hreg | apply C; exact Hin].
       - rewrite getloc_setloc_other by exact Hne. apply Ht; exact E'. }
     split; [rewrite length_setloc; exact Hlen|]. split; [exact Hg|]. split; [exact Hd|]. split; [exact Hn | exact Hr].
   - unfold with_locs. cbn [d_locs]. rewrite Hsame. exact P3.
@@ -469,7 +469,7 @@ Proof.
 Qed.
 
 (* _addVariableDb on a tracked Db *)
-Lemma tT_add d0 (HI0 : Inv d0) (H0 : forall t, tch t = true -> getloc (d_locs d0) t = []) d perm temp n init t d' u (st1 : bool) :
+Lemma tT_add d0 (HI0 : Inv d0) d perm temp n init t d' u (st1 : bool) :
   trackedT d0 tch d perm temp -> ((t <? 0) || (tch t && loc_ok t)) = true ->
   add_columns d n init [] t 0 = (d', u) -> 0 <= u ->
   trackedT d0 tch d' (if st1 then perm ++ seqz u (Z.to_nat n) else perm)
@@ -505,11 +505,11 @@ Proof.
     destruct T as [Ha [Ti [To [Hb1 Hb2]]]].
     rewrite cleans_status in Hcl.
     destruct w; unfold getdb in Ea; [|rewrite Ha in Ea].
-    + pose proof (tT_add din HIi Hti _ _ _ _ _ _ _ _ (is_perm status) Ti Ht Ea Eu) as T2.
+    + pose proof (tT_add din HIi _ _ _ _ _ _ _ _ (is_perm status) Ti Ht Ea Eu) as T2.
       unfold TrackedT, setdb, with_book, store_in_list, is_perm, set_slot in *; simpl.
       destruct (status =? 1) eqn:Es; simpl; (split; [exact Ha|]); (split; [exact T2|]); (split; [exact To|]);
         split; intro Hc; try congruence; first [apply Hb1 in Hc; tauto | apply Hb2 in Hc; tauto].
-    + pose proof (tT_add dout HIo Hto _ _ _ _ _ _ _ _ (is_perm status) To Ht Ea Eu) as T2.
+    + pose proof (tT_add dout HIo _ _ _ _ _ _ _ _ (is_perm status) To Ht Ea Eu) as T2.
       unfold TrackedT, setdb, with_book, store_in_list, is_perm, set_slot in *; simpl. rewrite Ha.
       destruct (status =? 1) eqn:Es; simpl; (split; [first [exact Ha | reflexivity]|]); (split; [exact Ti|]); (split; [exact T2|]);
         split; intro Hc; try congruence; first [apply Hb1 in Hc; tauto | apply Hb2 in Hc; tauto].
@@ -617,10 +617,10 @@ Proof.
   destruct (fs =? 1).
   { inversion Hrun; subst. apply RB; assumption. }
   destruct (exec_ops (k_nc c) (k_pre c) (init_st din dout false) (budget_of fs 2 fk)) as [ok1 s1] eqn:E1.
-  pose proof (exec_ops_safeT din dout HIi HIo tch HtX Hti Hto _ _ _ _ _ _ _ T0 Hpre E1) as T1.
+  pose proof (exec_ops_safeT din dout HIi HIo tch HtX _ _ _ _ _ _ _ T0 Hpre E1) as T1.
   destruct ok1; simpl in Hrun; [|inversion Hrun; subst; apply RB; assumption].
   destruct (exec_ops (k_nc c) (k_run c) s1 (budget_of fs 3 fk)) as [ok2 s2] eqn:E2.
-  pose proof (exec_ops_safeT din dout HIi HIo tch HtX Hti Hto _ _ _ _ _ _ _ T1 Hbody E2) as T2.
+  pose proof (exec_ops_safeT din dout HIi HIo tch HtX _ _ _ _ _ _ _ T1 Hbody E2) as T2.
   destruct ok2; simpl in Hrun; [|inversion Hrun; subst; apply RB; assumption].
   destruct (exec_ops (k_nc c) (k_post c) s2 (budget_of fs 4 fk)) as [ok3 s3] eqn:E3.
   assert (ok3 = true) as ->.
